@@ -24,6 +24,16 @@ def whileFuel {σ : Type} : (fuel : Nat) → (cond : σ → Bool) → (body : σ
   | 0, cond, _, s => if cond s then none else some s
   | fuel + 1, cond, body, s => if cond s then whileFuel fuel cond body (body s) else some s
 
+/-- `while cond: body` where the body may `return` (= `Except.error`); `ok none` = fuel exhausted. -/
+def whileFuelE {σ ε : Type} : (fuel : Nat) → (cond : σ → Bool) → (body : σ → Except ε σ) → σ → Except ε (Option σ)
+  | 0, cond, _, s => if cond s then .ok none else .ok (some s)
+  | fuel + 1, cond, body, s =>
+    if cond s then
+      match body s with
+      | .ok s' => whileFuelE fuel cond body s'
+      | .error e => .error e
+    else .ok (some s)
+
 theorem forRangeFrom_zero {σ ε : Type} (lo : Nat) (body : Nat → σ → Except ε σ) (s : σ) :
     forRangeFrom lo 0 body s = .ok s := rfl
 
